@@ -199,7 +199,7 @@ def circ_diff(a, b):
 
 RATES = [1, 2, 4, 5, 10, 20, 25, 50]
 STYLES = ["constant", "accelerating", "turning", "stopgo", "random", "missing", "gaps", "still"]
-CAM_MODES = ["plain", "restart", "late-start", "fail", "jitter", "race"]
+CAM_MODES = ["plain", "restart", "multi-restart", "late-start", "fail", "jitter", "race"]
 
 
 def gen_reports(rng, style, dur_ms, period, t_first, t0):
@@ -270,8 +270,9 @@ def gen_cam_scenario(rng, dur_ms, style=None, wrap=False, mode=None):
     if wrap:     # generationDeltaTime wraps a few seconds into the run
         t0 = wrap_t0(rng, t0, dur_ms)
     events = gen_reports(rng, style, dur_ms, 1000 // rate, rng.randrange(0, 1000 // rate), t0)
-    mode = mode or rng.choice(["plain", "plain", "restart", "late-start", "fail", "fail", "jitter", "race"])
+    mode = mode or rng.choice(["plain", "plain", "restart", "multi-restart", "late-start", "fail", "fail", "jitter", "race"])
     ctl = [[0, "start"]]
+    delay = rng.randrange(0, 100)
     if mode == "restart":
         ctl = []
         t, on = rng.randrange(0, 300), False
@@ -280,6 +281,20 @@ def gen_cam_scenario(rng, dur_ms, style=None, wrap=False, mode=None):
             on = ctl[-1][1] == "start"
             t += rng.choice([1, 7, 50, 99, 100, 101, 250, 1200, 4000, 9000])
         ctl.insert(0, [0, rng.choice(["stop", "start"])])
+    elif mode == "multi-restart":
+        # bursts of SEVERAL quick stop()/start() cycles: the activations in between are too short for a CAM, or their only
+        # check falls into the T_GenCamMin window of the last CAM (held back), so what start() remembered about the last
+        # CAM has to survive 2, 3, ... restarts without a CAM in between
+        delay = rng.choice([0, 1, 4, 10, 25, 60])
+        t = rng.randrange(150, 1500)
+        while t < dur_ms - 500:
+            u = t
+            for _ in range(rng.choice([2, 2, 3, 3, 4, 6])):
+                ctl.append([u, "stop"])
+                u += rng.choice([0, 1, 2, 5, 9, 20])
+                ctl.append([u, "start"])
+                u += rng.choice([1, 3, 8, 15, 30, 55])
+            t = u + rng.choice([40, 90, 100, 150, 600, 1100, 2300])
     elif mode == "late-start":
         ctl = [[rng.randrange(500, 3000), "start"], [dur_ms - rng.randrange(100, 2000), "stop"]]
     elif mode == "race":
@@ -305,7 +320,7 @@ def gen_cam_scenario(rng, dur_ms, style=None, wrap=False, mode=None):
     late = [rng.choice([0, 0, 1, 5, 20, 40]) for _ in range(7)] if mode == "jitter" else [0]
     role = rng.choice([0, 0, 0, 5, 6])
     return {"kind": "cam", "style": style, "mode": mode, "rate": rate, "t0": t0, "dur": dur_ms,
-            "delay": rng.randrange(0, 100), "late": late, "role": role, "station_type": rng.choice([5, 5, 2, 4, 10]),
+            "delay": delay, "late": late, "role": role, "station_type": rng.choice([5, 5, 2, 4, 10]),
             "special": bool(role and rng.random() < 0.7), "fails": fails,
             "events": sorted(events + ctl, key=lambda e: (e[0], 0 if e[1] != "report" else 1))}
 
@@ -429,7 +444,7 @@ def fails_of(sc):
     return out
 
 
-def run_cam(sc, coder, variants=(1, 1), quiet_log=True):
+def run_cam(sc, coder, variants=(1, 1, 1), quiet_log=True):
     """drive the real CAMTransmissionManagement through scenario `sc`.
     returns (model_lines, real_lines, oracle_log, info)"""
     clock = HalfClock(sc["t0"])
@@ -463,7 +478,8 @@ def run_cam(sc, coder, variants=(1, 1), quiet_log=True):
                                                        if sc["special"] else None))
             obj = ctm.CAMTransmissionManagement(cap, pcoder, vd, ldm)
             tw = 1 if sc["station_type"] in (2, 3, 4) else 0
-            lines.append(f"init {sc['role']} {tw} {1 if sc['special'] else 0} {variants[0]} {variants[1]}")
+            variants = tuple(variants) + (1,) * (3 - len(variants))
+            lines.append(f"init {sc['role']} {tw} {1 if sc['special'] else 0} {variants[0]} {variants[1]} {variants[2]}")
 
             def st():
                 tm = obj._timer
@@ -728,7 +744,7 @@ def classify_cam(rule):
 
 
 def detect_cam_variants(coder):
-    """which variant is the code?  (ldmIsolated, restartHold), by running the two witnesses on the real code"""
+    """which variant is the code?  (ldmIsolated, restartHold, holdSticky), by running the witnesses on the real code"""
     t0 = 1_700_000_000_000
     rep = {"time": iso(t0), "lat": 41.0, "lon": 2.0, "track": 90.0, "speed": 1.0}
     base = {"kind": "cam", "t0": t0, "dur": 400, "delay": 0, "late": [0], "role": 0, "station_type": 5, "special": False}
@@ -745,7 +761,15 @@ def detect_cam_variants(coder):
     if not times:
         raise Infra("variant probe: no CAM at all")
     hold = 0 if (len(times) >= 2 and times[1] - times[0] < T_GEN_CAM_MIN) else 1
-    return isolated, hold
+    # CAM at 0, restart at 3..7 (its check at 7 is held back), SECOND restart at 20..30: is the check at 30 still held
+    # back, or did the start() that followed the CAM-less activation forget the CAM at 0?
+    sticky = 1
+    if hold:
+        sc = dict(base, fails=[], events=[[0, "report", rep], [0, "start"], [3, "stop"], [7, "start"], [20, "stop"], [30, "start"]])
+        _, _, log, _ = run_cam(sc, coder)
+        times = [e[1] - t0 for e in log if e[0] == "check" and e[2]["cam"] is not None]
+        sticky = 0 if (len(times) >= 2 and times[1] - times[0] < T_GEN_CAM_MIN) else 1
+    return isolated, hold, sticky
 
 
 # ------------------------------------------------------------------------------------------------
@@ -982,9 +1006,22 @@ def check_cam_batch(ctx, coder, scenarios, tag, variants):
         ctx.cover("cam_pos_nudges", info["nudges"])
         ctx.cover("cam_virtual_s", sc["dur"] // 1000)
         ctx.cover("cam_expiry_then_stop_races", info["races"])
+        glast, starts, on = None, 0, False     # last CAM of any activation / activations begun since then
         for e in log:
+            if e[0] == "start" and not on:
+                on, starts = True, starts + 1
+            elif e[0] == "stop":
+                on = False
             if e[0] == "check":
                 c = e[2]
+                if c["active"] and glast is not None and e[1] - glast < T_GEN_CAM_MIN + 2 and starts >= 1:
+                    # a check of a LATER activation inside (or at the edge of) the T_GenCamMin window of the last CAM
+                    ctx.cover("cam_check_in_min_window_after_%s" % ("1_restart" if starts == 1 else "2_restarts" if starts == 2
+                                                                    else "3plus_restarts"))
+                if c["cam"] is not None:
+                    if starts >= 2 and glast is not None:
+                        ctx.cover("cam_first_after_several_restarts_without_cam")
+                    glast, starts = e[1], 0
                 if c["fail"]:
                     ctx.cover(f"cam_check_with_injected_{FAIL_KINDS[c['fail']]}_failure")
                     if c["cam"] is not None:
@@ -1143,6 +1180,41 @@ def race_and_failure_scenarios():
     return out
 
 
+def restart_chain_scenarios():
+    """hand-written histories of the class added in round 4: a CAM, then k = 2..5 stop()/start() cycles inside the
+    T_GenCamMin window of that CAM without a CAM in between (activations without any check, and activations whose only
+    check is held back), the first check of the last activation well inside the window and at 99 / 100 / 101 ms after
+    the CAM; standing still (CAM cadence 1 s) and with dynamics (cadence 100 ms); twice per run."""
+    out = []
+    t0 = 1_700_000_000_000
+
+    def reports(dur, dyn):
+        return [[k, "report", {"time": iso(t0 + k), "lat": 41.0 + (i * 2e-5 if dyn else 0.0), "lon": 2.0,
+                               "track": (90.0 + (i % 3) * 5.0) if dyn else 90.0, "speed": 10.0}]
+                for i, k in enumerate(range(0, dur, 50))]
+
+    for dyn in (False, True):
+        for k in (2, 3, 5):
+            for delay, gap in ((0, 4), (0, 9), (10, 3), (10, 8)):     # gap > delay: a (held) check in every activation
+                for last in (None, 99, 100, 101):
+                    ev = reports(3600, dyn) + [[0, "start"]]
+                    cam = 1000 + delay                                  # a CAM of the first activation (cadence 100 ms / 1 s)
+                    for _ in range(2):
+                        t = cam + 2
+                        for j in range(k):
+                            ev.append([t, "stop"])
+                            t += gap
+                            if j == k - 1 and last is not None:
+                                t = max(t, cam + last - delay)          # first check of the last activation at cam + last
+                            ev.append([t, "start"])
+                            first_check = t + delay
+                            t += gap
+                        # the first CAM of the last activation (if the hold is honoured), then a CAM 1 s later in either style
+                        cam = (first_check if first_check - cam >= T_GEN_CAM_MIN else first_check + 100) + 1000
+                    out.append(_cam_sc(t0, 3600, ev, mode="multi-restart", delay=delay))
+    return out
+
+
 def _vam_rep(t0, k, speed=1.0, track=90.0):
     return {"time": iso(t0 + k), "lat": 41.0, "lon": 2.0, "track": track, "speed": speed}
 
@@ -1193,12 +1265,14 @@ def variants_and_facts(ctx, cam_coder, vam_coder):
     cam_var = detect_cam_variants(cam_coder)
     ctx.extra["variant"] = {"C10-KF1": "gated (repaired)" if gated else "un-gated (code as is)",
                             "C10-F4 cam ldm failure": "isolated (repaired)" if cam_var[0] else "aborts the bookkeeping",
-                            "C10-F5 cam restart hold": "held (repaired)" if cam_var[1] else "no hold",
+                            "C10-F5 cam restart hold": ("no hold" if not cam_var[1] else "held through any number of restarts (repaired)"
+                                                        if cam_var[2] else "held, but cleared by a second restart without a CAM"),
                             "C10-F6 vam lf time": "after the send (repaired)" if lfa else "before the attempt"}
     # the facts regenerated from the source must describe the same variants as the behaviour probes
     try:
         facts = gen_facflow.facts()
-        for name, probe in (("CAM_LDM_ISOLATED", cam_var[0]), ("CAM_RESTART_HOLD", cam_var[1]), ("VAM_LF_TIME_AFTER_SEND", lfa)):
+        for name, probe in (("CAM_LDM_ISOLATED", cam_var[0]), ("CAM_RESTART_HOLD", cam_var[1]),
+                            ("CAM_RESTART_HOLD_STICKY", cam_var[1] and cam_var[2]), ("VAM_LF_TIME_AFTER_SEND", lfa)):
             if bool(facts.get(name)) != bool(probe):
                 ctx.mismatch("variant-facts", {"fact": name}, f"behaviour probe: {probe}", f"source shape: {facts.get(name)}")
     except Exception as e:     # reported by the generator as a broken obligation already
@@ -1226,6 +1300,7 @@ def run(ctx):
     # 2 boundaries
     check_cam_batch(ctx, cam_coder, boundary_scenarios(), "boundary", cam_var)
     check_cam_batch(ctx, cam_coder, race_and_failure_scenarios(), "race-fail", cam_var)
+    check_cam_batch(ctx, cam_coder, restart_chain_scenarios(), "restart-chain", cam_var)
     check_vam_batch(ctx, vam_coder, vam_boundary_scenarios(), gated, "boundary", lfa)
     check_vam_batch(ctx, vam_coder, vam_wrap_and_failure_scenarios(), gated, "wrap-fail", lfa)
     # 3 generated trajectories
@@ -1235,6 +1310,7 @@ def run(ctx):
         cams.append(gen_cam_scenario(ctx.rng, dur, style=st))
     for md in CAM_MODES:  # every mode at least once
         cams.append(gen_cam_scenario(ctx.rng, dur, mode=md))
+    cams += [gen_cam_scenario(ctx.rng, dur, mode="multi-restart") for _ in range(ctx.scale(3, 40))]
     cams += [offgrid(ctx.rng, gen_cam_scenario(ctx.rng, dur)) for _ in range(ctx.scale(6, 60))]
     check_cam_batch(ctx, cam_coder, cams, "gen", cam_var)
     n_vam = ctx.scale(40, 600)
@@ -1265,12 +1341,13 @@ def search(ctx):
     ctx.model_ok = False
     try:
         check_cam_batch(ctx, cam_coder, race_and_failure_scenarios(), "search-race-fail", cam_var)
+        check_cam_batch(ctx, cam_coder, restart_chain_scenarios(), "search-restart-chain", cam_var)
         check_vam_batch(ctx, vam_coder, vam_wrap_and_failure_scenarios(), gated, "search-wrap-fail", lfa)
         if ctx.violations:
             return
         n, dur = ctx.scale(150, 900), ctx.scale(20_000, 60_000)
-        modes = ["race", "fail", "restart", None]
-        check_cam_batch(ctx, cam_coder, [gen_cam_scenario(ctx.rng, dur, wrap=(i % 3 == 0), mode=modes[i % 4]) for i in range(n)],
+        modes = ["race", "fail", "restart", "multi-restart", None]
+        check_cam_batch(ctx, cam_coder, [gen_cam_scenario(ctx.rng, dur, wrap=(i % 3 == 0), mode=modes[i % 5]) for i in range(n)],
                         "search", cam_var)
         check_vam_batch(ctx, vam_coder, [gen_vam_scenario(ctx.rng, dur, wrap=(i % 2 == 0), style=("still" if i % 5 == 0 else None))
                                          for i in range(n)], gated, "search", lfa)
